@@ -24,6 +24,7 @@ func propC08(r *Report, tier string) {
 	ruleTFRGlobalIDs(r, "K8-tfr-global-ids")
 	ruleParallelSlotsUpdatedTogether(r, "K14-parallel-slots", "search/searcher", "NestedConjunctionSearcher", "currs", []string{"currAncestors", "currKeys"})
 	ruleExhaustionSticky(r, "K6-exhaustion-sticky")
+	ruleHeapRestoredBeforePeek(r, "K5-heap-restored-before-peek")
 	in := findIntroducers(r.P)
 	ruleOffsetsAlignment(r, "K14-offsets-alignment", snapshotConstructors(r, in))
 	r.Floor("K13-searcher-methods", 10)
